@@ -573,6 +573,7 @@ def rule_if_varmap(cx, rep, port):
     n = 0
     emod = cx.engine_mod(port)
     memo = {}
+    helper_paths = {}
 
     def effects(fname, depth=0):
         """parsers a helper of the engine module runs on *every* normal path (helpers the adapters call instead of the parsers)"""
@@ -603,6 +604,7 @@ def rule_if_varmap(cx, rep, port):
             per_path.append(got)
         res = set.intersection(*per_path) if per_path else set()
         memo[fname] = res
+        helper_paths[fname] = per_path
         return res
 
     def called(exprs):
@@ -675,6 +677,12 @@ def rule_if_varmap(cx, rep, port):
                 ok_pos = False
             if '<names>' in did:
                 # normalised names need both spellings (a.name and a["name"]); direct mode needs the bare names
+                if not (did & set(NAME_PARSERS)):
+                    # registered through a helper whose paths differ (normalised names on one path, bare names on the other): each of
+                    # the helper's own paths must be complete
+                    incomplete = [pp for hp in helper_paths.values() for pp in hp if (pp & set(NAME_PARSERS)) and 'map_variables_directly' not in pp and not {'parse_dictionary_variables', 'parse_attribute_variables'} <= pp]
+                    if not incomplete:
+                        continue
                 if 'map_variables_directly' not in did and not {'parse_dictionary_variables', 'parse_attribute_variables'} <= did:
                     half = sorted({'parse_dictionary_variables', 'parse_attribute_variables'} - did)
                     rep.violated(key + ' both spellings', q.node if q.node is not None else fd, 'a path registers name-based variables without {}: one of the two spellings a.name / a["name"] is unknown through this front end only'.format(half[0]))
